@@ -865,10 +865,63 @@ def sim_oracle(line, evs, meta):
     return r
 
 
+def udp_gen(n, seed, k, j):
+    return bytes(((seed * 131 + k * 31 + j * 7 + i * 13 + (i >> 7)) & 0xff) for i in range(n))
+
+
+def udp_batch_stage(chk):
+    """plain UDP (socket/udp-bsd.c) over real loopback sockets: one nice_socket_send_messages call with 1..6 scatter/gather messages of different buffer
+    counts (the sendmmsg path); every message must arrive as ONE datagram holding exactly the concatenation of its own buffers, in order
+    (harness/udp_h.c, exactly-sized heap buffers under ASan)."""
+    objs, l = vlib.repo_objects(vlib.AGENT_SRCS + vlib.SOCKET_SRCS + vlib.STUN_SRCS + ["agent/agent-enum-types.c"])
+    impl, o = vlib.link("udp_h", ["udp_h.c"], objs) if objs else (None, l)
+    if not impl:
+        chk.broken_obligation("impl-build-udp_h", (o or "")[-2000:]); return
+    rng = chk.sub_rng("udp-batch")
+    cases = []
+    for i in range(300 if chk.tier == "quick" else 6000):
+        msgs = []
+        for _ in range(rng.choice([1, 2, 2, 3, 4, 6])):
+            sizes = [rng.choice([0, 1, 2, 3, 20, 100, 576, 1200]) for _ in range(rng.choice([1, 1, 2, 3, 5]))]
+            if sum(sizes) == 0:
+                sizes[-1] = 1
+            msgs.append(sizes)
+        cases.append((rng.randrange(1, 250), msgs))
+    txt = "".join("u%d %d %s\n" % (i, sd, "|".join(".".join(map(str, m)) for m in msgs)) for i, (sd, msgs) in enumerate(cases))
+    rc, so, se = vlib.run_lines(impl, txt, timeout=600)
+    outs = so.strip().split("\n")
+    if rc != 0 or len(outs) != len(cases) or "NOSOCKET" in so:
+        idx = min(len(outs), len(cases) - 1)
+        chk.violation({"kind": "impl-crash", "what": "udp-batch-C02", "case": txt.split("\n")[idx], "rc": rc, "stderr": se[-3000:]},
+                      "udp-batch-C02: the UDP socket layer crashed or ASan reported (rc=%s) at case: %s\n%s" % (rc, txt.split("\n")[idx][:200], se[-1200:]))
+        return
+    nv = 0
+    for i, ((sd, msgs), out) in enumerate(zip(cases, outs)):
+        f = out.split()
+        want = [b"".join(udp_gen(n, sd, k, j) for j, n in enumerate(m)) for k, m in enumerate(msgs)]
+        ret = int(f[1][2:]); got = [] if f[2][2:] == "-" else [bytes.fromhex(x) if x != "-" else b"" for x in f[2][2:].split(",")]
+        chk.count_case(out[:80], len(msgs) > 1 and len(set(len(m) for m in msgs)) > 1, "udp-batch")
+        why = None
+        if ret != len(msgs):
+            why = "nice_socket_send_messages accepted %d of %d messages on an idle loopback socket" % (ret, len(msgs))
+        elif got != want:
+            k = next((k for k in range(min(len(got), len(want))) if got[k] != want[k]), min(len(got), len(want)))
+            why = ("datagram %d of the batch carries %s, message %d was %d bytes in %d buffers (layouts %s)"
+                   % (k, ("%d bytes" % len(got[k])) if k < len(got) else "nothing (never arrived)", k, len(want[k]) if k < len(want) else -1,
+                      len(msgs[k]) if k < len(msgs) else -1, msgs))
+        if why:
+            nv += 1
+            if nv <= 3:
+                chk.violation({"kind": "oracle", "what": "udp-batch-C02", "case": txt.split("\n")[i], "impl": out[:3000], "why": why},
+                              "udp-batch-C02: %s\n case: %s" % (why, txt.split("\n")[i][:300]))
+    chk.cov["correspondence"]["udp-batch-C02"] = {"cases": len(cases), "violations": nv}
+
+
 def run(chk):
     chk.prove(["Props/Properties_C02.v"])
     tcp_part(chk)
     spin_probe(chk)
+    udp_batch_stage(chk)
     n = 200 if chk.tier == "quick" else 12000
     cases = [sc.gen_data(chk.rng, i) for i in range(n)] + PTCP_CORPUS + PULL_CORPUS
     sc.run_sim(chk, cases, sim_oracle, "sim-C02", compare=False)
